@@ -65,3 +65,19 @@ def next_number():
     global _counter
     _counter += 1
     return _counter
+
+
+class Collector:
+    NAMES = ["a", "b"]
+    _seen = []
+    _own = []
+
+    def __init__(self):
+        self._own = []
+
+    def add(self, value):
+        self._seen.append(value)
+        self._own.append(value)
+
+    def seen(self):
+        return list(self._seen) + [name for name in self.NAMES]
